@@ -15,10 +15,10 @@ LEVEL = "proof"
 PROPS = ["GeosModel.Props.C07"]
 DRV = "drv_c07"
 
-QUICK = [("orient", 400000), ("orientarb", 150000), ("orientf", 50000), ("ring", 200000), ("segseg", 250000), ("ccw", 100000)]
+QUICK = [("orient", 400000), ("orientarb", 150000), ("orientf", 50000), ("ring", 200000), ("poly", 150000), ("segseg", 250000), ("ccw", 100000)]
 # thorough: ~75x quick; measured ~8 us/line (orient), ~25 us/line (orientarb), ~12 us/line (ring), ~7 us/line (segseg),
 # ~10 us/line (ccw) on 8 shards of an idle 16-core machine => about 11-13 min in total
-THOROUGH = [("orient", 30000000), ("orientarb", 6000000), ("orientf", 1000000), ("ring", 10000000), ("segseg", 16000000), ("ccw", 5000000)]
+THOROUGH = [("orient", 30000000), ("orientarb", 6000000), ("orientf", 1000000), ("ring", 10000000), ("poly", 6000000), ("segseg", 16000000), ("ccw", 5000000)]
 CHUNK = 4000000          # lines per run_stream call (bounds disk and memory in the thorough tier)
 MAX_PER_STREAM = 3       # violations reported per stream
 
@@ -212,7 +212,7 @@ def handle_orientarb(ctx, exe, disagreements):
 
 
 def handle_exact_stream(ctx, exe, stream, disagreements):
-    """ring / segseg / ccw: the driver answers with the exact specification on grid inputs"""
+    """ring / poly / segseg / ccw: the driver answers with the exact specification on grid inputs"""
     seen, found = [], False
     for idx, case, exp, got in disagreements:
         if len(seen) >= MAX_PER_STREAM:
@@ -243,6 +243,7 @@ def handle_exact_stream(ctx, exe, stream, disagreements):
                 c2, impl, spec = s
         found = True
         what = {"ring": "point-in-ring: implementation differs from the exact even-odd / on-segment specification on a grid input",
+                "poly": "point-in-polygon (SimplePointInAreaLocator / IndexedPointInAreaLocator / prepared XY / intersects / contains): implementation differs from the exact shell-minus-holes specification on a grid input",
                 "segseg": "LineIntersector: implementation differs from the exact segment-segment specification on a grid input",
                 "ccw": "Orientation::isCCW differs from the specification on a grid input"}[stream]
         failing(ctx, exe, stream, what + "; token %d impl %s spec %s" % (i, a, b), c2, impl, spec, sig)
